@@ -44,13 +44,16 @@ type Sys struct {
 	// owner: which exchange created the pair currently on record under (client,
 	// receive timestamp); a receive timestamp may be reused once its pair is gone
 	owner map[string]*Exchange
-	Cap   int
+	// issued: receive timestamps this harness has seen the server hand to each
+	// client (a reference record of the history, independent of the store)
+	issued map[string]map[ntp.Time64]bool
+	Cap    int
 	Steps int
 }
 
 // NewSys resets the store and installs a scripted clock.
 func NewSys() *Sys {
-	s := &Sys{InOrder: map[string]bool{}, lastRx: map[string]time.Time{}, owner: map[string]*Exchange{}, Cap: server.VerifTSSCap, MaxRx: T0}
+	s := &Sys{InOrder: map[string]bool{}, lastRx: map[string]time.Time{}, owner: map[string]*Exchange{}, issued: map[string]map[ntp.Time64]bool{}, Cap: server.VerifTSSCap, MaxRx: T0}
 	s.Clock = &world.Clock{}
 	s.Clock.Fixed = func() time.Time { return s.now }
 	world.UseClock(s.Clock)
@@ -73,6 +76,14 @@ func (s *Sys) FastH(c string, req ntp.Packet, rx time.Time) {
 	if rx.After(s.MaxRx) {
 		s.MaxRx = rx
 	}
+	s.issue(c, resp.ReceiveTime)
+}
+
+func (s *Sys) issue(c string, rx ntp.Time64) {
+	if s.issued[c] == nil {
+		s.issued[c] = map[ntp.Time64]bool{}
+	}
+	s.issued[c][rx] = true
 }
 
 // Fail is an oracle failure.
@@ -179,6 +190,12 @@ func (s *Sys) H(q Req) (*Exchange, ntp.Packet, *Fail) {
 	default:
 		return ex, resp, failf("origin-mismatch", "origin %v is neither the request's transmit %v nor receive %v timestamp", resp.OriginTime, q.Pkt.TransmitTime, q.Pkt.ReceiveTime)
 	}
+	// history-based reference, independent of the store: an interleaved reply
+	// presupposes an earlier exchange of this very client with that receive timestamp
+	if isInterleaved && !s.issued[q.Client][q.Pkt.OriginTime] {
+		return ex, resp, failf("interleaved-on-foreign-exchange", "interleaved reply to %s for origin %v, which no earlier reply to that client carried as receive timestamp (transmit served: %v)", q.Client, q.Pkt.OriginTime, resp.TransmitTime)
+	}
+	s.issue(q.Client, resp.ReceiveTime)
 	if isInterleaved && !wantInterleaved {
 		return ex, resp, failf("interleaved-without-record", "interleaved reply to %s but no exchange with rx=%v on record for that client (rx==tx in request: %v)", q.Client, q.Pkt.OriginTime, q.Pkt.ReceiveTime == q.Pkt.TransmitTime)
 	}
@@ -213,6 +230,21 @@ func (s *Sys) H(q Req) (*Exchange, ntp.Packet, *Fail) {
 		}
 		if !found {
 			return ex, resp, failf("exchange-not-recorded", "exchange rx=%v of %s not on record after handling", resp.ReceiveTime, q.Client)
+		}
+		// ... and the record holds nothing but what it held before and this exchange
+		for _, p := range pairsOf(post, q.Client) {
+			if p.Rx == resp.ReceiveTime {
+				continue
+			}
+			held := false
+			for _, o := range prePairs {
+				if o == p {
+					held = true
+				}
+			}
+			if !held {
+				return ex, resp, failf("record-holds-foreign-exchange", "after handling, %s has (rx=%v, tx=%v) on record: neither held before nor this exchange (client on record before: %v)", q.Client, p.Rx, p.Tx, hasClient(pre, q.Client))
+			}
 		}
 	} else if len(pre.Items) < s.Cap {
 		return ex, resp, failf("client-not-recorded", "store has room (%d/%d) but %s has no record", len(pre.Items), s.Cap, q.Client)
